@@ -289,21 +289,66 @@ def c17(pid, tier, seed, workdir):
     return cov, TRUSTED[:3], findings
 
 
+def c15_key(rec):
+    try:
+        r = json.loads(rec)
+        if r.get("k") == "shape":
+            return "shape hdr=%s nrows=%s ncols=%s cc=%s trail=%s" % (r.get("hdr"), r.get("nrows"), r.get("ncols"), r.get("cc"), r.get("trail"))
+        return "text=%s" % json.dumps(r.get("txt"), ensure_ascii=True)[:200]
+    except Exception:
+        return rec[:80]
+
+
+def c15(pid, tier, seed, workdir):
+    cov, assumptions, findings = trace_property(pid, tier, seed, workdir)
+    nmut = 20000 if tier == "quick" else 400000
+    probes = {}
+    shapes = 0
+    for profile in ("release", "plain"):
+        bindir = build_harness(profile)
+        out = os.path.join(workdir, "diagram_%s.ndjson" % profile)
+        r, fails = run_probe(pid, bindir, "diagram", [seed, nmut], out, "DiagramTrace.tla", profile, seed)
+        findings += report_probe_fails(pid, fails, seed, "diagram_" + profile, c15_key)
+        m = __import__("re").search(r'WELLFORMED (\d+)', r["out"])
+        probes[profile] = {"records": r["lines"], "well_formed_shapes_with_predicted_state": int(m.group(1)) if m else 0,
+                           "seconds": r["seconds"]}
+        shapes = r["lines"] - nmut - 1
+        log("[probe] diagram profile=%s records=%d %.1fs" % (profile, r["lines"], r["seconds"]))
+        if profile == "release":
+            with open(out, encoding="utf-8") as f:
+                first = json.loads(f.readline())
+            cov["samples"].append({"probe": "diagram shape", "hdr": first.get("hdr"), "nrows": first.get("nrows"),
+                                   "ncols": first.get("ncols"), "cc": first.get("cc"), "out": first.get("out"), "txt": first.get("txt")})
+    cov["diagram_probe"] = probes
+    cov["diagram_shapes"] = shapes
+    cov["diagram_mutations"] = nmut
+    cov["rule"] += ("; second half (parsing never panics): %d diagram-like texts by shape (17 header classes x 9 row counts x 7 column counts x 5 cell classes x "
+                    "5 trailers, thinned outside the neighbourhood of the well-formed shape) and %d random character mutations of printed diagrams, each in two "
+                    "build profiles; bounded + sampled, not all strings" % (shapes, nmut))
+    cov["evaluations"] += 2 * (shapes + nmut)
+    cov["distinct_nontrivial"] += shapes
+    return cov, assumptions, findings
+
+
 PROPS = {}
 PROPS["C16"] = c16
 PROPS["C17"] = c17
 for _p in ("C01", "C02", "C03", "C04", "C05", "C06", "C07", "C08", "C09", "C10", "C12", "C13", "C14", "C15", "C19"):
     PROPS[_p] = trace_property
+PROPS["C15"] = c15
 
 
 PROBE_MODULES = {"C16": "NotationTrace.tla", "C17": "HashTrace.tla"}
+PROBE_REPLAY_HINT = {"C15": "DiagramTrace.tla"}
 PROBE_CFG = {"C17": "ProbeHash.cfg"}
 
 
 def replay(pid, path):
     """Re-validate one replay file with the conjuncts of pid."""
     path = os.path.abspath(path)
-    if pid in PROBE_MODULES:
+    if pid == "C15" and '"k":"' in open(path, encoding="utf-8").readline():
+        r = validate_trace(path, pid, cfg="Probe.cfg", module="DiagramTrace.tla")
+    elif pid in PROBE_MODULES:
         r = validate_trace(path, pid, cfg=PROBE_CFG.get(pid, "Probe.cfg"), module=PROBE_MODULES[pid])
     else:
         r = validate_trace(path, pid)
